@@ -332,6 +332,34 @@ def specs():
         if "w" not in _objs:
             _objs["w"] = wmm_mod.WMM()
         return _objs["w"]
+    # ---- objects changed in place after their accessors were read once (q *= -1, Q[1] = ..., D[:] = another rotation): they must answer like a fresh
+    # object holding the new values (nothing remembered from the first read)
+    def q_acc(X):
+        return (X.w, X.x, X.y, X.z, X.v, X.conjugate, X.conj, X.inverse, X.to_array(), np.array(X.to_list(), float), X.mult_L(), X.mult_R(), X.exponential, X.logarithm,
+                float(X.is_pure()), float(X.is_real()), float(X.is_versor()), float(X.is_identity()))
+
+    def qa_acc(X):
+        return (X.w, X.x, X.y, X.z, X.v, X.conjugate(), X.to_array(), X.is_pure().astype(float), X.is_versor().astype(float), X.is_identity().astype(float))
+
+    def d_acc(X):
+        return (X.inv, X.I, X.det, X.fro, X.adj, X.log, X.to_quaternion(), X.to_angles(), X.to_axisangle()[0], X.to_axisangle()[1], np.asarray(X.A, float))
+
+    def changed(make, acc, change, what):
+        def fn(*args):
+            X = make(args[0])
+            acc(X)
+            change(X, *args[1:])
+            return TwinPair(what, acc(X), acc(make(np.array(np.asarray(X), float))))
+        return fn
+    Qn_ = lambda q: Quaternion(q, versor=False)          # noqa: E731
+    QAn_ = lambda Q_: QuaternionArray(Q_, versors=False)  # noqa: E731
+    add("[changed in place] Quaternion *= -1", changed(Qn_, q_acc, lambda X: X.__imul__(-1.0), "q *= -1"), lambda a: [a.q()])
+    add("[changed in place] Quaternion /= 2", changed(Qn_, q_acc, lambda X: X.__itruediv__(2.0), "q /= 2"), lambda a: [a.q()])
+    add("[changed in place] Quaternion[:] = values", changed(Qn_, q_acc, lambda X, p: X.__setitem__(slice(None), p), "q[:] = p"), lambda a: [a.q(), a.q()])
+    add("[changed in place] Quaternion[order=S] *= -1", changed(lambda q: Quaternion(q, versor=False, order="S"), lambda X: q_acc(X)[:10], lambda X: X.__imul__(-1.0), "q *= -1"), lambda a: [a.q()])
+    add("[changed in place] QuaternionArray *= -1", changed(QAn_, qa_acc, lambda X: X.__imul__(-1.0), "Q *= -1"), lambda a: [a.q(5)])
+    add("[changed in place] QuaternionArray[1] = values", changed(QAn_, qa_acc, lambda X, p: X.__setitem__(1, p), "Q[1] = p"), lambda a: [a.q(5), a.q()])
+    add("[changed in place] DCM[:] = another rotation", changed(lambda R_: DCM(np.array(R_, float)), d_acc, lambda X, R2: X.__setitem__(slice(None), R2), "D[:] = R2"), lambda a: [a.R(), a.R()])
     # ---- public worker methods a caller may use on their own (the workloads above only reach them through a constructor or an update step)
     from ahrs.filters import aqua as aqua_mod
     from ahrs.utils import wmm as wmm_mod
@@ -435,6 +463,13 @@ class KwPair:
         self.positional, self.by_keyword, self.names = positional, by_keyword, names
 
 
+class TwinPair:
+    """two objects that must answer alike: (what, answers of the first, answers of the second)"""
+
+    def __init__(self, what, first, second):
+        self.what, self.first, self.second = what, first, second
+
+
 class RepeatRaised:
     def __init__(self, msg):
         self.msg = msg
@@ -490,6 +525,8 @@ _cache = {}
 
 
 def flat(r):
+    if isinstance(r, TwinPair):
+        r = [r.first, r.second]
     if isinstance(r, KwPair):
         r = [r.positional, r.by_keyword]
     if isinstance(r, SameObject):
@@ -640,6 +677,11 @@ def check(case, ctx):
         return
     if case.p["form"] == "readonly":
         ctx.ok("write-protected arguments are only read (the call does not fail for want of write access)", True, route=name)
+    if isinstance(r1.value, TwinPair):
+        tp = r1.value
+        f1, f2 = flat(tp.first), flat(tp.second)
+        ctx.ok("an object changed in place answers like a fresh object built from its new values", f1.shape == f2.shape and np.array_equal(f1, f2, equal_nan=True),
+               {"changed_by": tp.what, "max_diff": float(np.nanmax(np.abs(f1 - f2))) if f1.shape == f2.shape and f1.size else None}, route=name)
     if isinstance(r1.value, KwPair):
         kp = r1.value
         f1, f2 = flat(kp.positional), flat(kp.by_keyword)
@@ -725,6 +767,8 @@ def scribble(val, args, undo):
     (undo collects (array, previous content) pairs)"""
     n = 0
     if isinstance(val, SameObject):
+        return 0
+    if isinstance(val, TwinPair):
         return 0
     if isinstance(val, KwPair):
         return scribble([val.positional, val.by_keyword], args, undo)
